@@ -6,6 +6,7 @@ import (
 	"errors"
 	"fmt"
 	"strconv"
+	"strings"
 	"testing"
 
 	"go.lstv.dev/util/roman"
@@ -23,6 +24,11 @@ type Case struct {
 
 const sentinel = roman.Number(777)
 
+type (
+	namedS string
+	namedB []byte
+)
+
 func typed(err error) bool {
 	switch err.(type) {
 	case nil:
@@ -32,7 +38,9 @@ func typed(err error) bool {
 	}
 	var a *roman.NumberFormatError[string]
 	var b *roman.NumberFormatError[[]byte]
-	return errors.As(err, &a) || errors.As(err, &b)
+	var c *roman.NumberFormatError[namedS]
+	var d *roman.NumberFormatError[namedB]
+	return errors.As(err, &a) || errors.As(err, &b) || errors.As(err, &c) || errors.As(err, &d)
 }
 
 func judge(c Case, w *vkit.W) {
@@ -87,13 +95,22 @@ func judge(c Case, w *vkit.W) {
 	}
 	n, err := roman.DefaultParser(text, rule)
 	parse("DefaultParser[string]", n, err)
-	n, err = roman.DefaultParser([]byte(text), rule)
+	n, err = roman.DefaultParser(w.Scratch(text), rule) // a reused caller buffer
 	parse("DefaultParser[[]byte]", n, err)
 	valid("Valid[string]", roman.Valid(text, rule))
-	valid("Valid[[]byte]", roman.Valid([]byte(text), rule))
+	valid("Valid[[]byte]", roman.Valid(w.Scratch(text), rule))
+	if ok || len(text) < 3 {
+		// derived input types (constraint.ParserInput is ~string | ~[]byte)
+		n, err = roman.DefaultParser(namedS(text), rule)
+		parse("DefaultParser[named string]", n, err)
+		n, err = roman.DefaultParser(namedB(w.Scratch(text)), rule)
+		parse("DefaultParser[named []byte]", n, err)
+		valid("Valid[named string]", roman.Valid(namedS(text), rule))
+		valid("Valid[named []byte]", roman.Valid(namedB(w.Scratch(text)), rule))
+	}
 	if c.Rule == 0 {
 		v := sentinel
-		err := v.UnmarshalText([]byte(text))
+		err := v.UnmarshalText(w.Scratch(text))
 		if err != nil {
 			if v != sentinel {
 				w.Fail(c, "receiver-changed-on-error", fmt.Sprintf("UnmarshalText(%q): error %v, receiver %d", text, err, uint64(v)))
@@ -200,6 +217,33 @@ func TestCheck(t *testing.T) {
 		}
 	})
 	r.Exhaustive(fmt.Sprintf("every string over {I,V,X,L,C,D,M} of length 0..%d in upper and lower case x 2 rules; every case mask for length <= %d", L, allMasks))
+
+	// Phase A2: every combination of the twelve forms of each group (additive and subtractive, short and long) behind 0-3 and
+	// 20 leading M, in upper, lower and alternating case: reaches the longest numerals (15 symbols after the thousands).
+	r.Phase("A2: all 12 x 12 x 12 group-form combinations x leading M counts x 3 letter cases", func() {
+		forms := func(one, five, ten string) []string {
+			return []string{"", one, one + one, one + one + one, one + five, one + one + one + one, five, five + one, five + one + one, five + one + one + one, one + ten, five + one + one + one + one}
+		}
+		hs, ts, us := forms("C", "D", "M"), forms("X", "L", "C"), forms("I", "V", "X")
+		r.Parallel(int64(len(hs)*len(ts)), 4, func(w *vkit.W, lo, hi int64) {
+			for k := lo; k < hi; k++ {
+				for _, u := range us {
+					for _, ms := range []int{0, 1, 2, 3, 20} {
+						base := []byte(strings.Repeat("M", ms) + hs[k/int64(len(ts))] + ts[k%int64(len(ts))] + u)
+						out := make([]byte, len(base))
+						for _, mask := range []uint64{0, ^uint64(0), 0x5555555555555555} {
+							text := string(applyMask(base, mask, out))
+							for _, rule := range rules {
+								judge(Case{Text: vkit.B(text), Rule: rule}, w)
+								w.Eval(len(text) > 0)
+							}
+						}
+					}
+				}
+			}
+		})
+	})
+	r.Exhaustive("every combination of the 12 forms (additive/subtractive, short/long) of the hundreds, tens and units groups behind 0,1,2,3,20 leading M in three letter cases")
 
 	// Phase B: one foreign byte (all 256 values) or one confusable rune substituted/inserted at each position of accepted numerals.
 	nBase := r.Pick(300, 6000)
